@@ -110,8 +110,12 @@ def same(a, b):
 
 def run_harness(prop, tier, seed, extra=(), timeout=3600):
     cmd = [HBIN, prop, tier, str(seed)] + list(extra)
-    p = subprocess.run(cmd, stdout=subprocess.PIPE, stderr=subprocess.PIPE, text=True, errors="replace", timeout=timeout)
-    return p.returncode, p.stdout, p.stderr
+    try:
+        p = subprocess.run(cmd, stdout=subprocess.PIPE, stderr=subprocess.PIPE, text=True, errors="replace", timeout=timeout)
+        return p.returncode, p.stdout, p.stderr
+    except subprocess.TimeoutExpired as e:
+        out = e.stdout.decode(errors="replace") if isinstance(e.stdout, bytes) else (e.stdout or "")
+        return 124, out, f"harness did not finish within {timeout} s"
 
 def run_driver(lines, timeout=3600):
     p = subprocess.run([DRV], input="\n".join(lines) + "\n", stdout=subprocess.PIPE, stderr=subprocess.PIPE,
@@ -241,7 +245,7 @@ def check(prop, tier, seed, budget=None):
     import concurrent.futures
     def one(extra):
         s = extra.get("seed", seed)
-        return extra, run_harness(prop, tier, s, extra.get("args", ()), timeout=extra.get("timeout", 7200))
+        return extra, run_harness(prop, tier, s, extra.get("args", ()), timeout=extra.get("timeout", 1500 if tier == "quick" else 7200))
     with concurrent.futures.ThreadPoolExecutor(max_workers=max(1, min(JOBS, len(runs) or 1))) as ex:
         results = list(ex.map(one, runs))
     for extra, (rc, out, err) in results:
